@@ -1698,3 +1698,31 @@ B('c20-lights-not-bound', 'C20', 'R20.n', WEBMOD,
   "    light_module.configure()\n", "")
 B('c01-light-set-not-bound', 'C01', 'R01.n', LIGHTMOD,
   "    light_set.configure()\n", "    pass\n")
+
+N('c20-scripts-created-in-load-manifest', 'C20', WEBAPP,
+  "        self._scripts = {}\n        self._jobs", "        self._jobs",
+  WEBAPP,
+  "        basename = settings.get_value('manifest_file_name', 'manifest.json')\n        if basename is None:",
+  "        basename = settings.get_value('manifest_file_name', 'manifest.json')\n        self._scripts = {}\n        if basename is None:")
+N('c13-light-fields-tuple-assign', 'C13', CTRLLIGHT,
+  "        self._group = group\n        self._location = location\n",
+  "        self._group, self._location = group, location\n")
+N('c01-registers-chained-assign', 'C01', MACHINE,
+  "        self.first_zone = 0\n", "        self.first_zone = self.last_zone = 0\n")
+N('c01-registers-via-helper', 'C01', MACHINE,
+  "        self.red = 0.0\n        self.result = None\n",
+  "        self._init_rgb()\n        self.result = None\n",
+  MACHINE,
+  "    def get_color(self):\n        if self.unit_mode is not UnitMode.RGB:",
+  "    def _init_rgb(self):\n        self.red = 0.0\n\n    def get_color(self):\n        if self.unit_mode is not UnitMode.RGB:")
+N('c20-scripts-get-one-arg', 'C20', WEBAPP,
+  "    def get_script_control(self, path) -> ScriptControl:\n        script_control = self._scripts.get(path, None)",
+  "    def get_script_control(self, path) -> ScriptControl:\n        script_control = self._scripts.get(path)")
+N('c20-wiring-order-swapped', 'C20', WEBMOD,
+  "    light_module.configure()\n    runtime_module.configure()\n",
+  "    runtime_module.configure()\n    light_module.configure()\n")
+N('c12-impl-conditional-both-arms', 'C12', LANLIGHT,
+  "        self._impl = impl\n", "        if impl is None:\n            self._impl = None\n        else:\n            self._impl = impl\n")
+N('c18-brief-class-attribute', 'C18', SNAPSHOT,
+  "        self._brief = False\n", "        pass\n",
+  SNAPSHOT, "class Snapshot:\n", "class Snapshot:\n    _brief = False\n")
